@@ -46,7 +46,8 @@ RULE = ('Hypothesis-generated server dialogues (1-8 steps) x login options (auto
         'scripted fake ssh that records what it receives and when.  Non-trivial: a dialogue of >= 3 steps that reaches '
         'the second phase, or a banner containing prompt-like characters, or a non-sh flavour.  Distinct by hash of the case.')
 ASSUMPTIONS = [
-    'banner text never matches the password regex (a MOTD containing "password:" is a documented hazard, not generated)',
+    'banner text never matches the password regex (a MOTD containing "password:" is a documented hazard, not generated); '
+    'banners that merely mention a password, a passphrase, permissions, a terminal or a connection are generated',
     'a canonical login that fails under the scaled-down timeouts (1.5 s, sync_multiplier 0.4) is repeated once with the '
     'default multiplier and 8 s timeouts before it counts',
     'timeouts are scaled through public arguments; a harness subclass maps the hard-coded 10 s of set_unique_prompt to 0.4 s',
@@ -90,7 +91,10 @@ def shards(tier):
     return [{'n': 8 if q else 260} for _ in range(16)]
 
 
-BANNERS_CLEAN = ['Welcome to host h\r\n', 'Last login: Mon Oct  5 10:00:00 2026 from 10.0.0.2\r\n', 'Linux 6.1 x86_64\r\n\r\n']
+BANNERS_CLEAN = ['Welcome to host h\r\n', 'Last login: Mon Oct  5 10:00:00 2026 from 10.0.0.2\r\n', 'Linux 6.1 x86_64\r\n\r\n',
+                 # near misses of the questions login() answers: none of these asks anything
+                 'Warning: your password will expire in 7 days\r\n', 'Your passphrase was changed last week\r\n',
+                 'permissions of ~/.ssh are fine, terminal ready, connection established\r\n']
 BANNERS_TRICKY = ['You have 3 new messages > inbox\r\n', 'Balance: 100$ \r\n', '### NOTICE ###\r\n', 'cost: $5 # approx\r\n']
 PROMPTS = ['user@h:~$ ', '# ', 'h> $ ', '[user@h ~]$ ']
 
